@@ -681,6 +681,15 @@ func handlePatternInExpr(p *TableAliasStmtInfo, expr *ast.PatternInExpr) (bool, 
 	if !need {
 		return false, nil, expr, nil
 	}
+	if rule.GetType() == router.GlobalTableRuleType {
+		// a column of a global table says nothing about where the rows of the sharded
+		// tables of the statement live: only rewrite its name, do not produce a route
+		// (the global rule's own indexes must not be intersected with, or used to
+		// split the value list by, the table indexes of a sharded rule)
+		columnNameExpr := expr.Expr.(*ast.ColumnNameExpr)
+		expr.Expr = CreateColumnNameExprDecorator(columnNameExpr, rule, isAlias, p.GetRouteResult())
+		return false, nil, expr, nil
+	}
 	decorator, err := CreatePatternInExprDecorator(expr, rule, isAlias, p.GetRouteResult())
 	if err != nil {
 		return false, nil, nil, fmt.Errorf("create PatternInExprDecorator error: %v", err)
@@ -700,6 +709,10 @@ func handleBetweenExpr(p *TableAliasStmtInfo, expr *ast.BetweenExpr) (bool, []in
 	decorator, err := CreateBetweenExprDecorator(expr, rule, isAlias, p.GetRouteResult())
 	if err != nil {
 		return false, nil, nil, fmt.Errorf("create CreateBetweenExprDecorator error: %v", err)
+	}
+	if rule.GetType() == router.GlobalTableRuleType {
+		// see handlePatternInExpr: a global table's column gives no route
+		return false, nil, decorator, nil
 	}
 
 	return true, decorator.GetCurrentRouteResult(), decorator, nil
